@@ -118,10 +118,15 @@ def gen_config(rng, small: bool = False, focus: str | None = None) -> dict:
         "align_threshold": rng.choice([0, 1, 16, 300, 1048576]),
         "max_workers": rng.choice([None, 1, 2, 4]),
         "backend": "safetensors" if rng.random() < 0.25 else "raw",
-        "naming": rng.choice(["m.data", "w.v1.data", "sub/m.data", "noext", "a.b.c.bin"]),
+        # valid relative names, including unusual ones (consecutive dots, leading dot, spaces, non-ASCII, nested dir):
+        # every one of them must be written and read back like "m.data" (seeded change C07-r4m3)
+        "naming": rng.choice(["m.data", "w.v1.data", "sub/m.data", "noext", "a.b.c.bin", "m.data", "w..v2.data",
+                              "..hidden.data", "m data.bin", "sub/deep/w...x", "poids_é.data", "a..b/m.data"]),
         "fail_at": None,
         "resave": None,
         "tseed": rng.randrange(1 << 30),
+        # model file name: the safetensors backend derives its data file names from it
+        "mname": rng.choice(["model.onnx", "model.onnx", "m.v1.5.onnx", "m..fp16.onnx", "my model.onnx", "..m.onnx"]),
     }
     if focus == "aligned-shards":
         # several tensors per shard, several shards, alignment with a small align_threshold, concurrent writers
@@ -199,11 +204,13 @@ def run_impl(cfg: dict, workdir: str) -> dict:
     """Run the real save/load (optionally: save, load, save again in place, load) ; canonical observations."""
     import onnx_ir as ir
     os.makedirs(os.path.join(workdir, "out", "sub"), exist_ok=True)
+    os.makedirs(os.path.join(workdir, "out", os.path.dirname(cfg.get("naming") or "")), exist_ok=True)
     model, objs, expect = _build_model(ir, cfg, workdir)
     gi = _graph_index(model)
     order = [f"{gi[id(gr)]}/{v.name}" for gr in model.graphs() for v in gr.initializers.values()]
     sizes = [expect[k]["nbytes"] for k in order]
-    path = os.path.join(workdir, "out", "model.onnx")
+    mname = cfg.get("mname", "model.onnx")
+    path = os.path.join(workdir, "out", mname)
     outcome = "ok"
     callback = None
     fail_at = cfg.get("fail_at")
@@ -267,7 +274,7 @@ def run_impl(cfg: dict, workdir: str) -> dict:
     for root, _, fs in os.walk(outdir):
         for fn in fs:
             p = os.path.relpath(os.path.join(root, fn), outdir)
-            if p != "model.onnx" and not fn.startswith("pre_") and not fn.endswith(".index.json"):
+            if p != mname and not fn.startswith("pre_") and not fn.endswith(".index.json"):
                 present[p] = os.path.getsize(os.path.join(root, fn))
     obs["data_files"] = present
     obs["ranges_by_file"] = files
@@ -730,7 +737,7 @@ def shrink(cfg: dict, ck) -> dict:
             if fails(c2):
                 cur, changed = c2, True
                 break
-        for key, val in (("max_shard", None), ("alignment", None), ("max_workers", None), ("naming", "m.data"),
+        for key, val in (("max_shard", None), ("alignment", None), ("max_workers", None), ("naming", "m.data"), ("mname", "model.onnx"),
                          ("backend", "raw")):
             if cur[key] != val:
                 c2 = dict(cur, **{key: val})
